@@ -23,14 +23,28 @@ theorem VStep.exact {f f' : Forest} {sites : List Nat}
 
 /-- The handles whose value `append(p, c)` may change. -/
 def appendSites (f : Forest) (p c : Nat) : List Nat :=
-  (f.prevSibling c).toList ++ ((f.afterOldSite c).lastChild p).toList
+  (f.prevSibling c).toList ++
+    ((f.afterOldSite c).selfPrev c ((f.afterOldSite c).lastChild p)).toList
 def prependSites (f : Forest) (p c : Nat) : List Nat :=
-  (f.prevSibling c).toList ++ ((f.afterOldSite c).firstChild p).toList
+  (f.prevSibling c).toList ++
+    ((f.afterOldSite c).selfNext c ((f.afterOldSite c).firstChild p)).toList
 def insertAfterSites (f : Forest) (ref c : Nat) : List Nat :=
   (f.prevSibling c).toList ++ [f.insertAfterRef ref c] ++
-    ((f.afterOldSite c).nextSibling (f.insertAfterRef ref c)).toList
+    ((f.afterOldSite c).selfNext c ((f.afterOldSite c).nextSibling (f.insertAfterRef ref c))).toList
 def insertBeforeSites (f : Forest) (ref c : Nat) : List Nat :=
-  (f.prevSibling c).toList ++ [ref] ++ ((f.afterOldSite c).prevSibling ref).toList
+  (f.prevSibling c).toList ++ [ref] ++
+    ((f.afterOldSite c).selfPrev c ((f.afterOldSite c).prevSibling ref)).toList
+
+/-- Under the invariant no node is its own previous sibling, so the reference `insert_after`
+    works with is never the moved node once the sibling reference check has passed. -/
+theorem insertAfterRef_ne {f : Forest} (w : f.W) {r c : Nat} (hrc : r ≠ c) :
+    f.insertAfterRef r c ≠ c := by
+  unfold insertAfterRef
+  split
+  · cases hp : f.prevSibling c with
+    | none => simpa using hrc
+    | some q => simpa using (prevSibling_sib w hp).ne
+  · exact hrc
 
 theorem append_value_exact {f : Forest} (hi : f.Inv) (p c : Nat) {x : Nat} {v v' : Value}
     (hv : f.value? x = some v) (hv' : (f.append p c).1.value? x = some v')
@@ -47,8 +61,15 @@ theorem prepend_value_exact {f : Forest} (hi : f.Inv) (p c : Nat) {x : Nat} {v v
 theorem insertAfter_value_exact {f : Forest} (hi : f.Inv) (r c : Nat) {x : Nat} {v v' : Value}
     (hv : f.value? x = some v) (hv' : (f.insertAfter r c).1.value? x = some v')
     (hx : x ∉ f.insertAfterSites r c) : v' = v :=
-  (vstep_insertAfter f r c (fun q h => by simp [insertAfterSites, h]) (by simp [insertAfterSites])
-    (fun q h => by simp [insertAfterSites, h])).exact hi hv hv' hx
+  by
+    by_cases hrc : r = c
+    · subst hrc
+      have : f.insertAfter r r = (f, .err .invalidOperation) := by
+        unfold insertAfter siblingReferenceCheck; simp
+      rw [this, hv] at hv'; cases hv'; rfl
+    · exact (vstep_insertAfter f r c (fun q h => by simp [insertAfterSites, h]) (by simp [insertAfterSites])
+        (fun q h => by simp [insertAfterSites, h])
+        (fun e => absurd e (insertAfterRef_ne hi.toW hrc))).exact hi hv hv' hx
 
 theorem insertBefore_value_exact {f : Forest} (hi : f.Inv) (r c : Nat) {x : Nat} {v v' : Value}
     (hv : f.value? x = some v) (hv' : (f.insertBefore r c).1.value? x = some v')
@@ -100,39 +121,6 @@ theorem site_outside {f : Forest} (w : f.W) {c par l : Nat} {tc : HTree} (hg : f
 theorem afterOldSite_W {f : Forest} (w : f.W) (c : Nat) : (f.afterOldSite c).W :=
   (removeConsolidate_spec w (f.prevSibling c) (f.nextSibling c)).1
 
-/-- `append`: every node of the moved subtree other than its root keeps its value exactly. -/
-theorem append_subtree_exact {f : Forest} (hi : f.Inv) (p c : Nat) {tc : HTree}
-    (hg : f.get? c = some tc) {x : Nat} (hx : x ∈ handles tc) (hxc : x ≠ c) {v v' : Value}
-    (hv : f.value? x = some v) (hv' : (f.append p c).1.value? x = some v') : v' = v := by
-  have w := hi.toW
-  cases hs : f.structureCheck (some p) c with
-  | false =>
-    have : f.append p c = (f, .err .invalidOperation) := by simp [append, hs]
-    rw [this, hv] at hv'; cases hv'; rfl
-  | true =>
-    have ck := structureCheck_some hs
-    apply append_value_exact hi p c hv hv'
-    simp only [appendSites, List.mem_append, Option.mem_toList, not_or]
-    refine ⟨fun h => sib_not_mem_subtree w hg (prevSibling_sib w h) hx, fun h => ?_⟩
-    exact site_outside w hg ck.notAnc (lastChild_parent (afterOldSite_W w c) h) hxc hx
-
-theorem prepend_subtree_exact {f : Forest} (hi : f.Inv) (p c : Nat) {tc : HTree}
-    (hg : f.get? c = some tc) {x : Nat} (hx : x ∈ handles tc) (hxc : x ≠ c) {v v' : Value}
-    (hv : f.value? x = some v) (hv' : (f.prepend p c).1.value? x = some v') : v' = v := by
-  have w := hi.toW
-  cases hs : f.structureCheck (some p) c with
-  | false =>
-    have : f.prepend p c = (f, .err .invalidOperation) := by simp [prepend, hs]
-    rw [this, hv] at hv'; cases hv'; rfl
-  | true =>
-    have ck := structureCheck_some hs
-    apply prepend_value_exact hi p c hv hv'
-    simp only [prependSites, List.mem_append, Option.mem_toList, not_or]
-    refine ⟨fun h => sib_not_mem_subtree w hg (prevSibling_sib w h) hx, fun h => ?_⟩
-    exact site_outside w hg ck.notAnc (firstChild_parent (afterOldSite_W w c) h) hxc hx
-
-/-! ### `insert_after`, `insert_before` -/
-
 /-- The old-site merge: nothing happened, or exactly the next sibling of `c` (a text node) is gone. -/
 theorem afterOldSite_cases {f : Forest} (w : f.W) (c : Nat) :
     f.afterOldSite c = f ∨
@@ -168,6 +156,54 @@ theorem afterOldSite_parent {f : Forest} (w : f.W) (c : Nat) {l : Nat}
     simp only [List.mem_singleton] at hm
     subst hm
     rw [hd] at hl; cases hl
+
+/-- A sibling of `c` after the old-site merge is outside the subtree of `c` (eccbbb7: the
+    neighbour the helper takes when it is handed `c` itself). -/
+theorem own_sibling_outside {f : Forest} (w : f.W) {c q : Nat} {tc : HTree} (hg : f.get? c = some tc)
+    (sb : Sib (f.afterOldSite c) c q) : q ∉ handles tc := by
+  obtain ⟨par1, h1, h2⟩ := sb.parent
+  have hl1 : (f.afterOldSite c).isLive c = true := (parent?_live h1).1
+  rw [afterOldSite_parent w c hl1] at h1
+  exact site_outside w hg (not_mem_ancestors_parent w h1) h2 sb.ne
+
+/-- `append`: every node of the moved subtree other than its root keeps its value exactly. -/
+theorem append_subtree_exact {f : Forest} (hi : f.Inv) (p c : Nat) {tc : HTree}
+    (hg : f.get? c = some tc) {x : Nat} (hx : x ∈ handles tc) (hxc : x ≠ c) {v v' : Value}
+    (hv : f.value? x = some v) (hv' : (f.append p c).1.value? x = some v') : v' = v := by
+  have w := hi.toW
+  cases hs : f.structureCheck (some p) c with
+  | false =>
+    have : f.append p c = (f, .err .invalidOperation) := by simp [append, hs]
+    rw [this, hv] at hv'; cases hv'; rfl
+  | true =>
+    have ck := structureCheck_some hs
+    apply append_value_exact hi p c hv hv'
+    simp only [appendSites, List.mem_append, Option.mem_toList, not_or]
+    refine ⟨fun h => sib_not_mem_subtree w hg (prevSibling_sib w h) hx, fun h => ?_⟩
+    unfold selfPrev at h
+    split at h
+    · exact own_sibling_outside w hg (prevSibling_sib (afterOldSite_W w c) h) hx
+    · exact site_outside w hg ck.notAnc (lastChild_parent (afterOldSite_W w c) h) hxc hx
+
+theorem prepend_subtree_exact {f : Forest} (hi : f.Inv) (p c : Nat) {tc : HTree}
+    (hg : f.get? c = some tc) {x : Nat} (hx : x ∈ handles tc) (hxc : x ≠ c) {v v' : Value}
+    (hv : f.value? x = some v) (hv' : (f.prepend p c).1.value? x = some v') : v' = v := by
+  have w := hi.toW
+  cases hs : f.structureCheck (some p) c with
+  | false =>
+    have : f.prepend p c = (f, .err .invalidOperation) := by simp [prepend, hs]
+    rw [this, hv] at hv'; cases hv'; rfl
+  | true =>
+    have ck := structureCheck_some hs
+    apply prepend_value_exact hi p c hv hv'
+    simp only [prependSites, List.mem_append, Option.mem_toList, not_or]
+    refine ⟨fun h => sib_not_mem_subtree w hg (prevSibling_sib w h) hx, fun h => ?_⟩
+    unfold selfNext at h
+    split at h
+    · exact own_sibling_outside w hg (nextSibling_sib (afterOldSite_W w c) h) hx
+    · exact site_outside w hg ck.notAnc (firstChild_parent (afterOldSite_W w c) h) hxc hx
+
+/-! ### `insert_after`, `insert_before` -/
 
 /-- A node with a parent that is not below `c` is outside the subtree of `c`, or is `c`. -/
 theorem outside_of_parent {f : Forest} (w : f.W) {c par l : Nat} {tc : HTree} (hg : f.get? c = some tc)
@@ -206,7 +242,10 @@ theorem insertBefore_subtree_exact {f : Forest} (hi : f.Inv) (r c : Nat) {tc : H
         · intro e
           subst e
           exact outside_of_parent w hg ck.notAnc hpr hrc hx
-        · have sb := prevSibling_sib w1 h
+        · unfold selfPrev at h
+          split at h
+          · exact own_sibling_outside w hg (prevSibling_sib w1 h) hx
+          have sb := prevSibling_sib w1 h
           obtain ⟨par1, h1, h2⟩ := sb.parent
           have hl1 : (f.afterOldSite c).isLive r = true := (parent?_live h1).1
           rw [afterOldSite_parent w c hl1, hpr] at h1
@@ -260,7 +299,10 @@ theorem insertAfter_subtree_exact {f : Forest} (hi : f.Inv) (r c : Nat) {tc : HT
         refine ⟨⟨fun h => sib_not_mem_subtree w hg (prevSibling_sib w h) hx, ?_⟩, fun h => ?_⟩
         · intro e
           exact href.1 (e ▸ hx)
-        · have sb := nextSibling_sib w1 h
+        · unfold selfNext at h
+          split at h
+          · exact own_sibling_outside w hg (nextSibling_sib w1 h) hx
+          have sb := nextSibling_sib w1 h
           obtain ⟨par1, h1, h2⟩ := sb.parent
           have hl1 : (f.afterOldSite c).isLive (f.insertAfterRef r c) = true := (parent?_live h1).1
           rw [afterOldSite_parent w c hl1] at h1
